@@ -561,6 +561,38 @@ impl Prop for C07 {
         let threads = ch.range(1, 16);
         let nseq = 200;
         let mut seqs = Vec::new();
+        // merge forests over up to 24 names: components are linked through random members, in random orientation,
+        // small and large ones in any order - the parent chains get deep (uniformly random pairs mostly give stars)
+        for _ in 0..2 {
+            if ch.chance(1, 2) {
+                let names = ch.range(6, 24);
+                let mut comps: Vec<Vec<u8>> = (0..names as u8).map(|i| vec![i]).collect();
+                // random relabelling, so that index order and merge order are unrelated
+                for i in (1..comps.len()).rev() {
+                    let j = ch.below(i + 1);
+                    comps.swap(i, j);
+                }
+                let mut s = Vec::new();
+                let stop_at = ch.range(1, 3);
+                while comps.len() > stop_at {
+                    let x = ch.below(comps.len());
+                    let cx_ = comps.swap_remove(x);
+                    let y = ch.below(comps.len());
+                    let a = cx_[ch.below(cx_.len())];
+                    let b = comps[y][ch.below(comps[y].len())];
+                    if ch.chance(1, 2) {
+                        s.push((a, b as i8));
+                    } else {
+                        s.push((b, a as i8));
+                    }
+                    if ch.chance(1, 6) {
+                        s.push((a, -1));
+                    }
+                    comps[y].extend(cx_);
+                }
+                seqs.push(s);
+            }
+        }
         for _ in 0..nseq {
             let names = ch.range(2, 8);
             let len = ch.below(13);
